@@ -145,6 +145,13 @@ Proof.
   - apply IHfc; [|assumption]. intros q0 Hc0 Hq0. apply Hq; [exact Hc0 | right; exact Hq0].
 Qed.
 
+Lemma NoDup_app_l {A} : forall (a b : list A), NoDup (a ++ b) -> NoDup a.
+Proof.
+  induction a as [|x a IH]; cbn; intros b H; [constructor|]. inversion H; subst. constructor.
+  - intro Hin. apply H2. apply in_or_app. left. exact Hin.
+  - apply (IH b). assumption.
+Qed.
+
 Lemma add_new_app : forall new acc, NoDup (acc ++ new) -> add_new acc new = acc ++ new.
 Proof.
   unfold add_new. induction new as [|k new IH]; cbn; intros acc H; [symmetry; apply app_nil_r|].
@@ -203,6 +210,14 @@ Qed.
 Lemma matches_all_nonempty : forall n q, matches [all] (n :: q) = true.
 Proof. intros. cbn. reflexivity. Qed.
 
+Lemma matches_cons_nil : forall a pat, matches (a :: pat) [] = false.
+Proof. intros. destruct pat; reflexivity. Qed.
+Lemma matches_cons2 : forall p r rest n q,
+  matches (p :: r :: rest) (n :: q) = (String.eqb p all || String.eqb p n) && matches (r :: rest) q.
+Proof. intros. destruct q; reflexivity. Qed.
+Lemma matches_last_deep : forall p n n' q, matches [p] (n :: n' :: q) = String.eqb p all.
+Proof. intros. cbn. destruct (String.eqb p all); [reflexivity | apply andb_false_r]. Qed.
+
 Lemma den_spec : forall t v pat, is_circ t = true -> den t v pat = path_denotation t v pat.
 Proof.
   induction t as [nd|ch IH] using tree_ind'; intros v pat IC.
@@ -219,8 +234,8 @@ Proof.
         -- cbn [matches]. destruct (String.eqb p all) eqn:E1; cbn [orb].
            ++ destruct (has_var v nd); reflexivity.
            ++ destruct (String.eqb p n); cbn; [destruct (has_var v nd); reflexivity | reflexivity].
-        -- cbn [matches]. rewrite andb_false_r. cbn.
-           destruct (String.eqb p all || String.eqb p n); reflexivity.
+        -- rewrite matches_cons2, matches_cons_nil, andb_false_r.
+           cbn. destruct (String.eqb p all || String.eqb p n); reflexivity.
       * destruct rest as [|r rest'].
         -- (* last pattern element at a circuit *)
            destruct (String.eqb p all) eqn:E1; cbn [orb].
@@ -231,15 +246,15 @@ Proof.
               ** assert (E : forall l : list (path * node), filter (fun _ => false) l = []) by (induction l; auto).
                  rewrite E. destruct (String.eqb p n); reflexivity.
               ** intros [q nd] Hq. unfold test. cbn [fst snd].
-                 destruct (leaves_circ_nonempty _ _ _ Hq) as [n' [q' E]]. subst q. cbn [matches]. rewrite E1.
-                 rewrite andb_false_r. reflexivity.
+                 destruct (leaves_circ_nonempty _ _ _ Hq) as [n' [q' E]]. subst q. rewrite matches_last_deep, E1.
+                 reflexivity.
         -- destruct (String.eqb p all || String.eqb p n) eqn:E.
            ++ rewrite IH by reflexivity. unfold path_denotation. f_equal. f_equal. apply filter_ext_in'. intros [q nd] Hq.
-              unfold test. cbn [fst snd]. destruct q as [|n' q']; cbn [matches]; rewrite E; reflexivity.
+              unfold test. cbn [fst snd]. rewrite matches_cons2, E. reflexivity.
            ++ rewrite (filter_ext_in' _ (fun _ => false)).
               ** assert (E0 : forall l : list (path * node), filter (fun _ => false) l = []) by (induction l; auto).
                  rewrite E0. reflexivity.
-              ** intros [q nd] Hq. unfold test. cbn [fst snd]. destruct q as [|n' q']; cbn [matches]; rewrite E; reflexivity.
+              ** intros [q nd] Hq. unfold test. cbn [fst snd]. rewrite matches_cons2, E. reflexivity.
 Qed.
 
 (* every denoted path resolves to a node that has the variable *)
@@ -302,15 +317,15 @@ Qed.
 Lemma gnwv_id : forall t v l, (forall q, In q l -> exists nd, gnt q t = Ok nd /\ has_var v nd = true) -> gnwv t v l = Ok l.
 Proof.
   intros t v l H. unfold gnwv. destruct v as [ov|]; [|reflexivity].
-  induction l as [|q l IH]; cbn; [reflexivity|].
-  destruct (H q (or_introl eq_refl)) as [nd [G Hv]]. rewrite G. cbn. rewrite IH; [|intros; apply H; right; assumption].
-  cbn. rewrite Hv. reflexivity.
+  induction l as [|q l IH]; [reflexivity|]. cbn [gnwv_some].
+  destruct (H q (or_introl eq_refl)) as [nd [G Hv]]. rewrite G. cbn [bind]. rewrite IH; [|intros; apply H; right; assumption].
+  cbn [bind]. rewrite Hv. reflexivity.
 Qed.
 
 Lemma gnwv_leaf : forall ch v n nd, assoc n ch = Some (Leaf nd) ->
   gnwv (Circ ch) v [[n]] = Ok (if has_var v nd then [[n]] else []).
 Proof.
-  intros ch v n nd Ha. unfold gnwv. destruct v as [ov|]; [|reflexivity]. cbn. rewrite Ha. cbn. reflexivity.
+  intros ch v n nd Ha. unfold gnwv. destruct v as [ov|]; [|reflexivity]. cbn [gnwv_some gnt]. rewrite Ha. reflexivity.
 Qed.
 
 Lemma gnwv_leaves : forall ch v, NoDup (map fst ch) -> existsb (fun c => is_circ (snd c)) ch = false ->
@@ -392,7 +407,11 @@ Qed.
 Theorem get_nodes_den : forall t v, WF t -> forall pat, resolvable t pat = true -> get_nodes t v pat = Ok (den t v pat).
 Proof.
   induction t as [nd|ch IH] using tree_ind'; intros v W pat R; [cbn in R; discriminate|].
-  destruct (WF_circ _ W) as [ND [NA Wc]]. rewrite Forall_forall in IH.
+  destruct (WF_circ _ W) as [ND [NA Wc0]]. rewrite Forall_forall in IH.
+  assert (Wc : forall n s, In (n, s) ch -> WF s) by (intros n s Hin; apply (Wc0 _ Hin)).
+  assert (IH' : forall n s, In (n, s) ch -> forall pat, resolvable s pat = true -> get_nodes s v pat = Ok (den s v pat))
+    by (intros n s Hin; apply (IH _ Hin v (Wc0 _ Hin))).
+  clear IH Wc0.
   rewrite get_nodes_circ. destruct pat as [|p [|r rest]].
   - cbn in R. discriminate.
   - (* one level left *)
@@ -415,9 +434,9 @@ Proof.
            apply seq_concat_ok. intros [n s] Hin. rewrite String.eqb_refl. cbn [orb].
            destruct s as [nd|ch'].
            ++ cbn [is_circ named]. unfold named. apply gnwv_leaf. apply (assoc_In _ _ _ ND Hin).
-           ++ cbn [is_circ]. rewrite (IH _ Hin v (Wc _ Hin) [all] (resolvable_all _ (Wc _ Hin))).
-              apply (named_circ ch v n ch'); [exact W | exact Hin | apply den_NoDup; apply (Wc _ Hin) |].
-              intros q Hq. apply (den_gnt _ v (Wc _ Hin) _ _ Hq).
+           ++ cbn [is_circ]. rewrite (IH' _ _ Hin [all] (resolvable_all _ (Wc _ _ Hin))).
+              apply (named_circ ch v n ch'); [exact W | exact Hin | apply den_NoDup; apply (Wc _ _ Hin) |].
+              intros q Hq. apply (den_gnt _ v (Wc _ _ Hin) _ _ Hq).
         -- rewrite (gnwv_leaves ch v ND EC). f_equal. cbn [den]. apply flat_map_ext_in. intros [n s] Hin.
            rewrite String.eqb_refl. cbn [orb fst snd].
            destruct s as [nd|ch']; [reflexivity|]. exfalso.
@@ -439,23 +458,23 @@ Proof.
         assert (Hin : In (n, s) ch) by (apply Hi; left; reflexivity).
         specialize (R _ Hin). cbn [snd] in R. destruct (is_circ s) eqn:Es; [|discriminate].
         cbn [sub_res map fold_left all_step]. rewrite Es. fold (sub_res v l (r :: rest)).
-        unfold resolvable in IH. rewrite (IH _ Hin v (Wc _ Hin) (r :: rest) R). cbn [bind].
+        rewrite (IH' _ _ Hin (r :: rest) R). cbn [bind].
         cbn [flat_map] in NDa. unfold G at 1 in NDa. cbn [fst snd] in NDa. rewrite app_assoc in NDa.
-        rewrite add_new_app by (apply NoDup_app_remove_r in NDa; exact NDa).
+        rewrite add_new_app by (apply NoDup_app_l in NDa; exact NDa).
         rewrite IHl; [|intros x Hx; apply Hi; right; exact Hx | exact NDa].
         cbn [flat_map]. unfold G at 2. cbn [fst snd]. rewrite app_assoc. reflexivity. }
       assert (EQ : flat_map G ch = den (Circ ch) v (p :: r :: rest)).
       { cbn [den]. apply flat_map_ext_in. intros [n s] Hin. rewrite E1. cbn [orb]. unfold G. cbn [fst snd].
         specialize (R _ Hin). cbn [snd] in R. destruct s as [nd|ch']; [cbn in R; discriminate | reflexivity]. }
-      rewrite (F ch [] (incl_refl _)); cbn [app].
-      * cbn [bind]. rewrite EQ. apply gnwv_id. intros q Hq. apply (den_gnt _ v W _ _ Hq).
-      * rewrite EQ. apply den_NoDup. exact W.
+      assert (F0 := F ch [] (incl_refl _)). cbn [app] in F0. rewrite EQ in F0.
+      unfold path in *. rewrite F0 by (apply den_NoDup; exact W).
+      cbn [bind]. apply gnwv_id. intros q Hq. apply (den_gnt _ v W _ _ Hq).
     + (* named level *)
       rewrite assoc_sub_res. rewrite (assoc_map (fun s => (is_circ s, chk false false false s (r :: rest)))) in R.
       destruct (assoc p ch) as [s|] eqn:Ea; cbn [option_map] in *; [|discriminate].
       apply assoc_Some_In in Ea. destruct s as [nd|ch']; cbn [is_circ] in *; [discriminate|].
-      rewrite (IH _ Ea v (Wc _ Ea) (r :: rest) R).
-      rewrite (named_circ ch v p ch' _ W Ea (den_NoDup _ v (Wc _ Ea) _) (fun q Hq => den_gnt _ v (Wc _ Ea) _ _ Hq)).
+      rewrite (IH' _ _ Ea (r :: rest) R).
+      rewrite (named_circ ch v p ch' _ W Ea (den_NoDup _ v (Wc _ _ Ea) _) (fun q Hq => den_gnt _ v (Wc _ _ Ea) _ _ Hq)).
       f_equal. cbn [den]. rewrite (flat_map_single _ ch p (Circ ch') ND Ea).
       * rewrite String.eqb_refl, orb_true_r. reflexivity.
       * intros [n s] Hc Hn. cbn in Hn. assert (E2 : String.eqb p n = false) by (apply String.eqb_neq; congruence).
@@ -529,7 +548,7 @@ Lemma tperm_leaves : forall t t', tperm t t' -> Permutation (leaves t) (leaves t
 Proof.
   fix IH 3. intros t t' H. destruct H as [nd|ch ch1 ch' F P].
   - apply Permutation_refl.
-  - eapply Permutation_trans; [|apply leaves_perm_top; exact P].
+  - eapply Permutation_trans; [|apply leaves_perm_top; exact P]. clear P.
     cbn [leaves]. induction F as [|[n s] [n1 s1] l l1 [E T] F' IHF]; [constructor|].
     cbn [flat_map fst snd] in *. subst n1. apply Permutation_app; [|exact IHF].
     apply Permutation_map. apply IH. exact T.
@@ -538,3 +557,154 @@ Qed.
 Theorem denotation_order_invariant : forall t t' v pat, tperm t t' ->
   Permutation (path_denotation t v pat) (path_denotation t' v pat).
 Proof. intros. apply denotation_perm. apply tperm_leaves. assumption. Qed.
+
+(* ------------------------------------------------------------------------------------------ output stage *)
+Definition entries_of (t : tree) (r : request) : list (string * entry) :=
+  let '(key, (pat, (o, x))) := r in
+  match path_denotation t (Some (o, x)) pat with
+  | [] => []
+  | [n] => [(key, Single (var_key n o x))]
+  | ns => [(key, Multi (map (fun n => var_key n o x) ns))]
+  end.
+
+(* dict form: every key is resolved to the denotation of its path (one entry per key, in request order) *)
+Theorem positions_dict_spec : forall t reqs, wfb t = true -> reqs_resolvable t reqs = true ->
+  positions_dict t reqs = Ok (flat_map (entries_of t) reqs).
+Proof.
+  intros t reqs W. induction reqs as [|[key [pat [o x]]] reqs IH]; intro R; [reflexivity|].
+  unfold reqs_resolvable in R. cbn [forallb fst snd] in R. apply andb_true_iff in R as [R1 R2].
+  cbn [positions_dict]. rewrite (get_nodes_correct t (Some (o, x)) pat W R1). cbn [bind].
+  rewrite (IH R2). cbn [bind flat_map entries_of].
+  destruct (path_denotation t (Some (o, x)) pat) as [|n [|n' ns]]; reflexivity.
+Qed.
+
+Lemma var_key_length : forall n o x, List.length (var_key n o x) = List.length n + 2.
+Proof. intros. unfold var_key. rewrite app_length. reflexivity. Qed.
+
+(* the MultiIndex label built from a resolved variable key is (key, node levels..., "op/var") *)
+Theorem multi_label : forall (key : string) n o x,
+  key :: firstn (List.length (var_key n o x) - 2) (var_key n o x) ++ [last2 (var_key n o x)] = key :: n ++ [opvar o x].
+Proof.
+  intros. f_equal. rewrite var_key_length. replace (List.length n + 2 - 2) with (List.length n) by lia.
+  unfold var_key. rewrite firstn_app, Nat.sub_diag, firstn_all. cbn [firstn]. rewrite app_nil_r. f_equal. f_equal.
+  unfold last2. rewrite app_length. cbn [List.length].
+  replace (List.length n + 2 - 2) with (List.length n) by lia. replace (List.length n + 2 - 1) with (S (List.length n)) by lia.
+  rewrite !app_nth2 by lia. rewrite Nat.sub_diag. replace (S (List.length n) - List.length n) with 1 by lia. reflexivity.
+Qed.
+
+(* a one-character key survives MultiIndex.from_tuples *)
+Lemma chars_single : forall c, chars (String c EmptyString) = [String c EmptyString].
+Proof. reflexivity. Qed.
+
+(* on a fresh template the source of a variable is the vector of its representative and its own unit index *)
+Theorem source_of_fresh : forall L v vec i, tsvi L = [] -> source_of L v = Ok (vec, i) ->
+  passoc v (vidx L) = Some i /\ passoc (relabel L v) (f2b L) = Some vec /\ exists sl, assoc vec (svi L) = Some sl.
+Proof.
+  intros L v vec i Hf H. unfold source_of, get_var_idx in H. rewrite Hf in H. cbn [assoc] in H.
+  destruct (passoc v (vidx L)) as [j|]; [|discriminate]. cbn [bind] in H.
+  destruct (passoc (relabel L v) (f2b L)) as [w|]; [|discriminate].
+  destruct (assoc w (svi L)) as [sl|] eqn:E; [|discriminate]. inversion H; subst. eauto.
+Qed.
+
+Lemma nth_error_slice {V} : forall (row : list V) start len i, i < len ->
+  nth_error (firstn len (skipn start row)) i = nth_error row (start + i).
+Proof.
+  intros row start len i Hi.
+  assert (FN : forall (l : list V) n j, j < n -> nth_error (firstn n l) j = nth_error l j).
+  { induction l as [|a l IHl]; intros n j Hj; [rewrite firstn_nil; reflexivity|].
+    destruct n as [|n]; [lia|]. destruct j as [|j]; [reflexivity|]. cbn. apply IHl. lia. }
+  rewrite FN by exact Hi.
+  revert row. induction start as [|s IH]; intros row; [reflexivity|].
+  destruct row as [|a row]; cbn [skipn plus]; [destruct i; reflexivity | apply IH].
+Qed.
+
+(* outputs.pop(key)[:, idx] reads the state slot pos(var) *)
+Theorem column_value_slot {V} : forall (d : V) L row v src k, source_of L v = Ok src -> pos L v = Some k ->
+  column_value d L row src = nth_error row k.
+Proof.
+  intros d L row v [vec i] k Hs Hp. unfold pos in Hp. rewrite Hs in Hp. unfold column_value. cbn [fst snd].
+  destruct (assoc vec (svi L)) as [[start len]|]; [|discriminate].
+  destruct (Nat.ltb i len) eqn:E; [|discriminate]. inversion Hp; subst. apply Nat.ltb_lt in E.
+  apply nth_error_slice. exact E.
+Qed.
+
+(* ------------------------------------------------------------------------------------------ witnesses *)
+Definition opn : node := [("op", ["x"; "k"])].
+Definition flat3 : tree := Circ [("A", Leaf opn); ("B", Leaf opn); ("C", Leaf opn)].
+Definition two_branches : tree :=
+  Circ [("a", Circ [("c1", Circ [("n0", Leaf opn)])]); ("b", Circ [("c2", Circ [("n0", Leaf opn)])])].
+(* what apply(vectorize=True) leaves behind for flat3: B and C merged into A's vector *)
+Definition L3 : layout :=
+  {| labels := [(["B"; "op"], ["A"; "op"]); (["B"], ["A"]); (["C"; "op"], ["A"; "op"]); (["C"], ["A"])];
+     vidx := [(["A"; "op"; "x"], 0); (["B"; "op"; "x"], 1); (["C"; "op"; "x"], 2)];
+     f2b := [(["A"; "op"; "x"], "x")]; svi := [("x", (0, 3))]; tsvi := [] |}.
+Definition ox : string * string := ("op", "x").
+
+Definition full_statement : Prop :=
+  forall t v pat, wfb t = true -> get_nodes t v pat = Ok (path_denotation t v pat).
+
+Lemma refuted_D31 : wfb two_branches = true /\
+  get_nodes two_branches (Some ox) ["all"; "c1"; "n0"] = Err KeyError /\
+  path_denotation two_branches (Some ox) ["all"; "c1"; "n0"] = [["a"; "c1"; "n0"]] /\
+  names_resolve two_branches ["all"; "c1"; "n0"] = false.
+Proof. vm_compute. repeat split. Qed.
+
+Lemma refuted_too_long : wfb flat3 = true /\
+  get_nodes flat3 (Some ox) ["B"; "zzz"] = Ok [["B"]] /\ path_denotation flat3 (Some ox) ["B"; "zzz"] = [] /\
+  not_too_long flat3 ["B"; "zzz"] = false.
+Proof. vm_compute. repeat split. Qed.
+
+Lemma refuted_too_short :
+  get_nodes two_branches None ["a"] = Ok [["a"]] /\ get_nodes two_branches (Some ox) ["a"] = Err IndexError /\
+  path_denotation two_branches None ["a"] = [] /\ not_too_short two_branches ["a"] = false.
+Proof. vm_compute. repeat split. Qed.
+
+Lemma full_statement_refuted : ~ full_statement.
+Proof.
+  intro H. specialize (H two_branches (Some ox) ["all"; "c1"; "n0"] eq_refl).
+  destruct refuted_D31 as [_ [E _]]. rewrite E in H. discriminate.
+Qed.
+
+(* D06 (repaired): the list form relabelled the path BEFORE resolving it — B's column came back as A's *)
+Lemma list_old_refuted :
+  run_columns flat3 L3 ListFormOld [("", (["B"], ox))] = Ok [(["A/op/x"], ("x", 0))] /\
+  run_columns flat3 L3 ListForm [("", (["B"], ox))] = Ok [(["B/op/x"], ("x", 1))] /\
+  spec_columns flat3 ListForm [("", (["B"], ox))] = [(["B/op/x"], ["B"; "op"; "x"])] /\
+  pos L3 ["B"; "op"; "x"] = Some 1.
+Proof. vm_compute. repeat split. Qed.
+
+Lemma plain_key_split_refuted :
+  run_columns flat3 L3 DictForm [("ab", (["B"], ox)); ("a", (["all"], ox))] =
+    Ok [(["a"; "b"], ("x", 1)); (["a"; "A"; "op/x"], ("x", 0)); (["a"; "B"; "op/x"], ("x", 1)); (["a"; "C"; "op/x"], ("x", 2))] /\
+  map fst (spec_columns flat3 DictForm [("ab", (["B"], ox)); ("a", (["all"], ox))]) =
+    [["ab"]; ["a"; "A"; "op/x"]; ["a"; "B"; "op/x"]; ["a"; "C"; "op/x"]] /\
+  mixed_labels_ok flat3 [("ab", (["B"], ox)); ("a", (["all"], ox))] = false.
+Proof. vm_compute. repeat split. Qed.
+
+Lemma overlap_refuted :
+  run_columns flat3 L3 DictForm [("a", (["all"], ox)); ("b", (["all"], ox))] = Err KeyError /\
+  List.length (spec_columns flat3 DictForm [("a", (["all"], ox)); ("b", (["all"], ox))]) = 6 /\
+  no_overlap flat3 [("a", (["all"], ox)); ("b", (["all"], ox))] = false.
+Proof. vm_compute. repeat split. Qed.
+
+(* get_run_func then run on one template: the stale map sends unit 1 of x to absolute position 3 + 1 = unit 4 *)
+Definition stale_tree : tree :=
+  Circ [("U0", Leaf [("ou", ["u"; "k"])]); ("U1", Leaf [("ou", ["u"; "k"])]); ("U2", Leaf [("ou", ["u"; "k"])]);
+        ("N0", Leaf opn); ("N1", Leaf opn); ("N2", Leaf opn); ("N3", Leaf opn); ("N4", Leaf opn)].
+Definition L_stale (stale : bool) : layout :=
+  {| labels := []; vidx := [(["N1"; "op"; "x"], 1); (["N4"; "op"; "x"], 4)];
+     f2b := [(["N1"; "op"; "x"], "x"); (["N4"; "op"; "x"], "x")]; svi := [("u", (0, 3)); ("x", (3, 5))];
+     tsvi := if stale then [("u", Some (0, 3)); ("x", Some (3, 5))] else [] |}.
+Lemma stale_indices_refuted :
+  source_of (L_stale true) ["N1"; "op"; "x"] = Ok ("x", 4) /\ source_of (L_stale false) ["N1"; "op"; "x"] = Ok ("x", 1) /\
+  source_of (L_stale false) ["N4"; "op"; "x"] = Ok ("x", 4).
+Proof. vm_compute. repeat split. Qed.
+
+(* non-vacuity: a depth-2 tree, wildcard in the middle, the guard holds and two nodes are denoted *)
+Definition nv_tree : tree :=
+  Circ [("c1", Circ [("A", Leaf opn); ("B", Leaf [("oq", ["x"; "z"; "k"])])]);
+        ("c2", Circ [("B", Leaf opn); ("A", Leaf opn)])].
+Lemma nonvacuous : wfb nv_tree = true /\ resolvable nv_tree ["all"; "A"] = true /\
+  get_nodes nv_tree (Some ox) ["all"; "A"] = Ok [["c1"; "A"]; ["c2"; "A"]] /\
+  get_nodes nv_tree (Some ox) ["all"] = Ok [["c1"; "A"]; ["c2"; "B"]; ["c2"; "A"]].
+Proof. vm_compute. repeat split. Qed.
